@@ -73,6 +73,19 @@ mod imp {
                     true
                 }
             }
+            "walk" => {
+                let (mi, ei) = (m["items"].as_array().unwrap(), e["items"].as_array().unwrap());
+                if m["end"] != e["end"] || mi.len() != ei.len() {
+                    return false;
+                }
+                if m["how"] == "count" && m["end"] == "none" && u(&m["cnt"]) != u(&e["cnt"]) {
+                    return false;
+                }
+                mi.iter().zip(ei).enumerate().all(|(i, (a, b))| {
+                    let want = mach.cell_addr(u(&a["obj"][0]) as usize, u(&a["obj"][1]));
+                    a["tag"] == b["tag"] && want == b["aout"].as_u64() && u(&m["ids"][i]) == u(&b["g"])
+                })
+            }
             "next" => {
                 if mo["o"] != e["out"] || u(&m["g"]) != u(&e["g"]) {
                     return false;
@@ -161,6 +174,7 @@ mod imp {
                     "iter" => mach.iter(k, h),
                     "next" => mach.next(h, if g != 0 { g } else { mach.free_guard().unwrap() }),
                     "idrop" => mach.idrop(h),
+                    "walk" => mach.walk(h, m["how"].as_str().unwrap(), u(&m["n"]) as usize, u(&m["m"]) as usize),
                     _ => panic!("HARNESS: unknown op {}", op),
                 };
                 calls += 1;
@@ -220,6 +234,8 @@ mod imp {
             "iter" => json!(format!("iter{} h{}", m["k"].as_str().unwrap_or(""), m["h"])),
             "next" => json!(format!("next h{} -> {} tag {}", m["h"], m["out"]["o"].as_str().unwrap_or(""), m["out"]["tag"])),
             "idrop" => json!(format!("idrop h{}", m["h"])),
+            "walk" => json!(format!("{}({},{}) h{} -> {} items, {}", m["how"].as_str().unwrap_or(""), m["n"], m["m"], m["h"],
+                m["items"].as_array().map(|x| x.len()).unwrap_or(0), m["end"].as_str().unwrap_or(""))),
             _ => m.clone(),
         }
     }
@@ -321,10 +337,27 @@ mod imp {
                         Some(h) => m.iter(if rng.gen_bool(0.5) { "w" } else { "r" }, h),
                         None => continue,
                     }
-                } else if x < 0.95 {
+                } else if x < 0.86 {
                     match (m.iter_ids().choose(&mut rng), m.free_guard()) {
                         (Some(h), Some(g)) => m.next(*h, g),
                         _ => continue,
+                    }
+                } else if x < 0.93 {
+                    // the iterator consumed through a std adapter (by_ref: mixes with plain next)
+                    let free = max_g - m.n_guards();
+                    match m.iter_ids().choose(&mut rng) {
+                        Some(h) if free >= 1 => {
+                            let how = *["nth", "nth", "skip", "skip", "step", "take", "last", "count"].choose(&mut rng).unwrap();
+                            let n = if how == "step" { rng.gen_range(1..=3) } else { rng.gen_range(0..=3) };
+                            let mm = rng.gen_range(1..=free.min(3));
+                            m.walk(*h, how, n, mm)
+                        }
+                        _ => continue,
+                    }
+                } else if x < 0.95 {
+                    match m.iter_ids().choose(&mut rng) {
+                        Some(h) => m.hint(*h),
+                        None => continue,
                     }
                 } else {
                     match m.iter_ids().choose(&mut rng) {
@@ -332,7 +365,7 @@ mod imp {
                         None => continue,
                     }
                 };
-                let key = format!("{}:{}", e["ev"].as_str().unwrap_or(""), e["out"].as_str().unwrap_or("-"));
+                let key = format!("{}:{}", e["ev"].as_str().unwrap_or(""), e["out"].as_str().or(e["how"].as_str()).unwrap_or("-"));
                 *outcomes.entry(key).or_default() += 1;
                 evs.push(e);
             }
@@ -425,6 +458,32 @@ mod imp {
                             break;
                         }
                     }
+                    for g in m.guard_ids() {
+                        evs.push(m.drop_guard(g));
+                    }
+                    evs.push(m.idrop(1));
+                }
+                // the same iterators consumed through std adapters (most registered types are absent:
+                // whatever an adapter skips has to be counted in ITEMS, not in table entries)
+                for k in ["r", "w"] {
+                    evs.push(m.iter(k, 1));
+                    evs.push(m.hint(1));
+                    for (how, n, mm) in [("nth", 2, 1), ("skip", 3, 2), ("next", 0, 0), ("step", 2, 3), ("take", 0, 2), ("nth", 0, 1), ("count", 0, 0)] {
+                        if how == "next" {
+                            let g = m.free_guard().unwrap();
+                            evs.push(m.next(1, g));
+                        } else {
+                            evs.push(m.walk(1, how, n, mm));
+                        }
+                        evs.push(m.hint(1));
+                    }
+                    for g in m.guard_ids() {
+                        evs.push(m.drop_guard(g));
+                    }
+                    evs.push(m.idrop(1));
+                    evs.push(m.iter(k, 1));
+                    evs.push(m.walk(1, "skip", 5, 1));
+                    evs.push(m.walk(1, "last", 0, 0));
                     for g in m.guard_ids() {
                         evs.push(m.drop_guard(g));
                     }
